@@ -107,6 +107,7 @@ struct SlotOps {
     void (*write_cell)(void *obj, const size_t *c, const uint64_t *bits) = nullptr;
     void (*read_cell)(const void *obj, const size_t *c, uint64_t *bits) = nullptr;
     void (*lookup)(const void *obj, const double *x, uint64_t *bits) = nullptr;
+    void (*lookup_va)(const void *obj, const double *x, uint64_t *bits) = nullptr; // at(scalar, scalar, ...) instead of at(coordinate_t)
     // group io
     bool has_io = false;
     bool has_dmp = false;
@@ -127,6 +128,7 @@ struct SlotOps {
     void *(*copy_view)(const void *view) = nullptr;
     void (*free_view)(void *view) = nullptr;
     void (*view_lookup)(const void *view, const double *x, uint64_t *bits) = nullptr;
+    void (*view_lookup_va)(const void *view, const double *x, uint64_t *bits) = nullptr;
     void (*view_write)(const void *view, const size_t *c, const uint64_t *bits) = nullptr;
     void (*view_read)(const void *view, const size_t *c, uint64_t *bits) = nullptr;
     bool ref_output = false; // the view's lookup returns a reference into the storage (writable at its own coordinate type)
